@@ -134,6 +134,9 @@ def stage_design(ctx, col):
     vlib.log("TLC %s: %d distinct / %d generated, depth %d, %.0fs" % (cfg, r.distinct, r.generated, r.depth, r.wall))
     col.cov.update(states=r.distinct, transitions=r.generated, tlc_depth=r.depth, tlc_cfg=cfg, tlc_wall_s=round(r.wall, 1))
     if not ctx.quick:
+        f4 = vlib.tlc_must_pass(ctx, "MCTxPool", "MCTxPool_fused4.cfg", workers=16, timeout=3000)
+        col.cov.update(fused4_states=f4.distinct, fused4_transitions=f4.generated)
+        vlib.log("TLC MCTxPool_fused4.cfg: %d distinct / %d generated, %.0fs" % (f4.distinct, f4.generated, f4.wall))
         lv = vlib.tlc_must_pass(ctx, "MCTxPool", "MCTxPool_live.cfg", workers=8, timeout=3000)
         col.cov.update(liveness_states=lv.distinct, liveness_cfg="MCTxPool_live.cfg",
                        liveness="RequestEventuallyServed, ResetEventuallyServed, SenderEventuallyUnblocked hold under weak fairness")
@@ -146,11 +149,18 @@ def replay_behaviours(ctx, col, drv, behs, univ, tag, workers=16, timeout=3000):
         for b in behs:
             fh.write(json.dumps(b, separators=(",", ":")) + "\n")
     res = ctx.work / ("replay-%s.json" % tag)
-    p = run_driver(drv, ["replay", "-in", f, "-out", res, "-workers", workers] + flags(univ), timeout)
+    cmd = ["replay", "-in", f, "-out", res, "-workers", workers] + flags(univ)
+    p = run_driver(drv, cmd, timeout)
     base = {"type": "behaviour", "universe": univ}
     if not handle_driver_output(col, p, "pooldrv replay " + tag, base):
         return None
     rj = json.loads(res.read_text())
+
+    def rerun():
+        p2 = run_driver(drv, cmd, timeout)
+        if p2.returncode != 0:
+            return True
+        return any(v.get("kind") == "stuck" for v in (json.loads(res.read_text()).get("violations") or []))
     for m in (rj.get("mismatches") or []):
         col.reports.append(({"kind": "spec-vs-impl", "op": m["op"], "field": m["field"]},
                             dict(base, behaviour=m["prefix"], step=m["step"], expected=m["expected"], got=m["got"])))
@@ -159,9 +169,9 @@ def replay_behaviours(ctx, col, drv, behs, univ, tag, workers=16, timeout=3000):
         col.reports.append(({"kind": "panic", "what": "pool goroutine panicked (recovered and logged)"}, dict(base, log=pn[:6000])))
     for v in (rj.get("violations") or []):
         if v.get("kind") != "stuck":
-            col.reports.append((classify_violation(v), dict(base, violation=v)))
+            col.reports.append((classify_violation(v), dict(base, behaviour=v.pop("behaviour", None), violation=v)))
     if stuck:
-        col.stuck.append((stuck[0], None, base))
+        col.stuck.append((stuck[0], rerun, dict(base, behaviour=stuck[0].pop("behaviour", None))))
     return rj
 
 
@@ -310,8 +320,8 @@ def stage_random(ctx, col, drv, drv_race):
             v, e, c = validate_traces(ctx, col, tr, "trace-race", 12000, 5)
             stats["race_validated"] = {"scenarios": v, "events": e, "tlc_runs": c}
         # one long-lived pool: the 30 s pool limiter and many eviction ticks
-        rj, tr = random_run(ctx, col, drv_race, "soak", ["-scenarios", 2, "-steps", 20, "-producers", 16, "-rounds", 260,
-                                                         "-parallel", 2, "-trace-events", 0], race=True, timeout=6000)
+        rj, tr = random_run(ctx, col, drv_race, "soak", ["-scenarios", 2, "-steps", 20, "-producers", 16, "-rounds", 1,
+                                                         "-soak", "65s", "-parallel", 2, "-trace-events", 0], race=True, timeout=6000)
         if rj:
             stats["soak"] = rj["stats"]
     col.cov["random"] = stats
